@@ -16,6 +16,7 @@ Proof.
 Qed.
 
 Section IndexInv.
+  Set Default Proof Using "Type".
   Variable matchf : doc -> doc -> res bool.
 
   Local Notation covered := (Collection.covered matchf).
